@@ -16,7 +16,8 @@
   after a label, commas between operands, a line break between a directive and its operand are all
   covered; every mixture of letter cases in mnemonics, directives and register names; `br` or `brnzp`;
   every literal spelling the specification reads (`#d #+d #-d xH XH 0xH 0XH x-H x+H`, leading zeros,
-  hex digits of either case, value in −32768 … 65535); every valid label name (DESIGN.md I13,
+  hex digits of either case, value in −32768 … 65535); a final `.end` (any letter case) followed by
+  arbitrary ignored text; every valid label name (DESIGN.md I13,
   including names that begin like a hex literal or a register), distinct labels having distinct names;
   string bodies that can stand between quotes.
 
@@ -33,7 +34,6 @@
   every `br` has a mnemonic (`nzp ≠ 0`), string bodies contain no raw line feed / quote and do not end
   in a lone backslash, and the program has **fewer than 65,535 words** (at exactly 65,535 words lace
   rejects a `.break` / `.orig` that follows the last word, which `Prog.image` accepts; not covered).
-  Not covered: a trailing `.end` (with arbitrary text after it).
 -/
 import Lace.Props.C01Core
 import Lace.Proofs.RenderRel
@@ -63,9 +63,9 @@ theorem preprocess_render (flag : Bool) (L : Layout) (P : Prog) (hok : L.ok P = 
     (hst : flag = true ∨ P.stmts.all (fun ls => !ls.2.isStack) = true) :
     ∃ toks, preprocess (some flag) (render L P) = .ok toks ∧
       List.Forall₂ ETok.Matches (progETok L.names P) toks := by
-  have htr : gapAux true false L.trail = true := by
+  have htr : TrailEnds (some flag) L.trail := by
     simp only [Layout.ok, Bool.and_eq_true] at hok
-    exact trailOk_gap hok.1.2
+    exact trailOk_ends (some flag) hok.1.2
   exact preprocess_textRel (some flag) L.trail (render L P) _ htr (textRel_render flag L P hok hst)
 
 theorem image_stack {flag : Bool} {P : Prog} (h : (P.image flag).isSome = true) :
@@ -146,5 +146,9 @@ example : String.ofList (render exLayout exProg) =
 
 example : AssemblesTo false (render exLayout exProg) exProg :=
   assemble_image_render false exProg _ (by decide) (by decide) ⟨exLayout, by decide, rfl⟩
+
+/-- the same program, ended by `.END` and text the assembler never looks at -/
+example : ({ exLayout with trail := "\n.END add r0 \" é #99999 .orig".toList } : Layout).ok exProg = true := by
+  decide
 
 end Lace.C01
